@@ -44,9 +44,19 @@ type RuleResult struct {
 	Floor int    // minimum number of instances (discharged+finding+undecided) confirmed by hand
 	Note  string // what the rule decides, one line
 	Err   error  // anchor lost / analysis failure => the rule fails closed
+	keys  map[string]int
 }
 
+// Add records an obligation. Keys are made unique per rule: a repeated key gets "#2", "#3", ...
+// in order of appearance (instruction order, which is deterministic).
 func (r *RuleResult) Add(st Status, key, pos, msg string) {
+	if r.keys == nil {
+		r.keys = map[string]int{}
+	}
+	r.keys[key]++
+	if n := r.keys[key]; n > 1 {
+		key = fmt.Sprintf("%s#%d", key, n)
+	}
 	r.Obs = append(r.Obs, Ob{Rule: r.Rule, Key: r.Rule + "|" + key, Status: st, St: st.String(), Pos: pos, Msg: msg})
 }
 func (r *RuleResult) OK(key, pos, msg string)   { r.Add(Discharged, key, pos, msg) }
@@ -110,6 +120,10 @@ type PropRun struct {
 	CheckerCmd  string
 	Extra       map[string]interface{}
 }
+
+// EmitKnown, when set, makes Finish print a known_findings.jsonl candidate line for every
+// unlisted violation (triage aid; nothing is written to the committed file).
+var EmitKnown bool
 
 type Outcome struct {
 	Violations []Ob
@@ -217,6 +231,10 @@ func (p *PropRun) Finish(verifDir string, known []Known) int {
 			b, _ := json.MarshalIndent(rec, "", " ")
 			_ = os.WriteFile(path, append(b, '\n'), 0o644)
 			fmt.Printf("  finding: rule=%s key=%q at %s: %s\n", v.Rule, v.Key, v.Pos, v.Msg)
+			if EmitKnown {
+				kb, _ := json.Marshal(Known{Property: p.Property, Rule: v.Rule, Key: v.Key, Status: "open", What: v.Msg})
+				fmt.Printf("KNOWN-CANDIDATE %s\n", kb)
+			}
 			lines = append(lines, fmt.Sprintf("VIOLATION property=%s replay=%s", p.Property, path))
 		}
 	}
